@@ -119,10 +119,34 @@ def rule_fqn_format(rep):
             node=nb,
         )
         seen = {}
+        # the greedy marker: whatever the code appends for greedy=True, it must contain a character
+        # that no symbol name can contain -- otherwise a separator (or a rule) with the right name
+        # produces the same helper name (`x*[g]` vs `x*!` when the marker was "_g")
+        base_tpl, _ = fqn_template(repo, dict(sep=False, greedy=False))
+        g_tpl, _ = fqn_template(repo, dict(sep=False, greedy=True))
+        marker = g_tpl[len(base_tpl):] if g_tpl.startswith(base_tpl) else None
+        name_rx = None
+        for n in ast.walk(repo.module("parglare.grammar").tree):
+            if isinstance(n, ast.Tuple) and len(n.elts) == 2 and isinstance(n.elts[0], ast.Constant) and n.elts[0].value == "Name" \
+                    and isinstance(n.elts[1], ast.Constant) and isinstance(n.elts[1].value, str):
+                name_rx = n.elts[1].value
+        r.need(name_rx is not None, "the grammar language's Name terminal was not found")
+        r.check(
+            bool(marker) and "{" not in marker and re.fullmatch(name_rx, "x" + marker) is None
+            and all(re.fullmatch(name_rx, "x" + marker[:i] + "y" + marker[i:]) is None for i in range(len(marker) + 1)),
+            f"greedy marker {marker!r} cannot be part of a symbol name ({name_rx})",
+            "make_multiplicity_fqn:greedy-marker",
+            f"the greedy variant of a helper rule is told apart by the suffix {marker!r}, which is also a legal tail of a "
+            f"symbol name ({name_rx}): a separator with that name gives `x*[sep]` the helper name of `x*!`, and the two "
+            "share one helper rule",
+            node=f.node,
+        )
+        G = marker or "_g"
+        rep._pgv_greedy_marker = G
         for sep, greedy in itertools.product((False, True), repeat=2):
             v = dict(sep=sep, greedy=greedy)
             tpl, leaf = fqn_template(repo, v)
-            exp = "{symbol_name}_{name_by_mult[multiplicity]}" + ("_{separator_name}" if sep else "") + ("_g" if greedy else "")
+            exp = "{symbol_name}_{name_by_mult[multiplicity]}" + ("_{separator_name}" if sep else "") + (G if greedy else "")
             r.check(
                 tpl == exp,
                 f"name template for separator={sep}, greedy={greedy}",
@@ -188,6 +212,9 @@ def _nt_descr(e, v):
     return None
 
 
+_GREEDY_MARKER = ["!"]  # set from the code by rule_expansion (the marker make_multiplicity_fqn appends)
+
+
 def _name_descr(name, v):
     name = strip_at(name)[0]
     wrapper = False
@@ -196,7 +223,7 @@ def _name_descr(name, v):
         vals = name.values
         if (
             len(vals) == 2 and isinstance(vals[0], ast.FormattedValue)
-            and isinstance(vals[1], ast.Constant) and vals[1].value == "_g"
+            and isinstance(vals[1], ast.Constant) and vals[1].value == _GREEDY_MARKER[0]
         ):
             wrapper = True
             name = strip_at(vals[0].value)[0]
@@ -277,6 +304,13 @@ def rule_expansion(rep):
         "EMPTY; x_opt: x | EMPTY; greedy => right associative; ? with separator rejected)",
     ) as r:
         repo = rep.repo
+        try:
+            b_, _ = fqn_template(repo, dict(sep=False, greedy=False))
+            g_, _ = fqn_template(repo, dict(sep=False, greedy=True))
+            if g_.startswith(b_) and g_ != b_:
+                _GREEDY_MARKER[0] = g_[len(b_):]
+        except AnalysisError:
+            pass
         f = repo.func("parglare.grammar.Grammar._make_multiplicity_symbol")
         want_params = ["self", "symbol_ref", "base_symbol", "separator", "imported_with"]
         r.need(f.params == want_params, f"_make_multiplicity_symbol parameters changed: {f.params}")
